@@ -329,7 +329,7 @@ PLAN = {
     'C03': dict(mc='LatticeMC_C03', emit='LatticeMC_C03e', rnd=(400, 6000), allow=('ne', 'W', 'nodes', 'cuts', 'linked', 'skip', 'second'), kinds=('extend', 'widen'), aux=()),
     'C04': dict(mc='LatticeMC_C04', emit='LatticeMC_ALLe', rnd=(800, 8000), allow=('ne', 'W', 'nodes', 'cuts', 'linked', 'skip', 'second'), kinds=('extend', 'widen'), aux=()),
     'C05': dict(mc='LatticeMC_C05', emit='LatticeMC_ALLe', rnd=(400, 6000), allow=('ne', 'W', 'nodes', 'cuts', 'linked', 'skip', 'second'), kinds=('extend', 'widen'), aux=()),
-    'C06': dict(mc='LatticeMC_C06', emit='LatticeMC_C06e', rnd=(1800, 12000), allow=('ne', 'nodes', 'cuts', 'linked', 'skip'), kinds=(), aux=('C06',)),
+    'C06': dict(mc='LatticeMC_C06', emit='LatticeMC_C06e', rnd=(3600, 14000), allow=('ne', 'nodes', 'cuts', 'linked', 'skip'), kinds=(), aux=('C06',)),
     'C07': dict(mc='LatticeMC_C07', emit='LatticeMC_C07e', rnd=(400, 6000), allow=('ne', 'W', 'nodes', 'cuts', 'linked', 'skip', 'second'), kinds=('widen',), aux=('C07',)),
     'C08': dict(mc='LatticeMC_C08', emit='LatticeMC_C08e', rnd=(400, 6000), allow=('ne', 'W', 'nodes', 'cuts', 'linked', 'skip', 'second'), kinds=('extend',), aux=('C08',)),
     'C09': dict(mc='LatticeMC_C09', emit='LatticeMC_ALLe', rnd=(1500, 10000), allow=('ne', 'W', 'nodes', 'cuts', 'linked', 'skip', 'second'), kinds=('extend', 'widen'), aux=()),
@@ -477,7 +477,7 @@ def run(chk):
                 chk.spec_drift(f'run {run_["tid"]}: {x["clause"]} at event {x["at"]}')
     # 4. the real Simple / Distance matchers on geometric instances
     plan.setdefault('gallow', GALLOW)
-    ng = {'C03': (150, 1500), 'C04': (400, 3000), 'C05': (150, 1500), 'C06': (150, 1500), 'C07': (120, 1200),
+    ng = {'C03': (150, 1500), 'C04': (400, 3000), 'C05': (150, 1500), 'C06': (400, 2000), 'C07': (120, 1200),
           'C08': (120, 1200), 'C09': (150, 1500)}.get(pid)
     if ng:
         geo_part(chk, pid, rng, ng[thorough], plan)
@@ -584,6 +584,8 @@ def geo_part(chk, pid, rng, n, plan):
                 cf.update(max_dist=None, max_dist_init=None, min_prob_norm=None, W=0)
         if pid == 'C06':
             cf.update(ne=True, W=0, avoid_goingback=False)
+            if cf['cls'] == 'simple' and i % 3:
+                cf['only_edges'] = False        # node states: the node branches of the non-emitting helpers
         if pid == 'C07' and not cf['W']:
             cf['W'] = rng.choice([1, 2, 3])
         if pid in ('C07', 'C09') and cf['ne'] and rng.random() < 0.4:
